@@ -20,8 +20,8 @@ def _walk_own(n):
             return
         if "k" in n:
             yield n
-        for v in n.values():
-            if isinstance(v, (dict, list)):
+        for key, v in n.items():
+            if key != "inl" and isinstance(v, (dict, list)):
                 yield from _walk_own(v)
     elif isinstance(n, list):
         for x in n:
@@ -183,3 +183,122 @@ def diag_total(ctx, r):
                  f"{name}: the arm(s) for {left} of `match {scrut}` diverge, and nothing before the match returns for them: a diagnostic that mentions such a declaration (a name clash with an import alias, a duplicated `outputtype`) makes the renderer - and with it `errors()` of the editor analysis and the CLI - panic instead of printing",
                  sample=f"{name}: diverging arms {sorted(set(div))} are unreachable behind an earlier returning guard")
     r.count("renderer matches with diverging arms", n, 1, ERR)
+
+
+@rule("SPAN-SUBSCRIPT", ["C04", "C34"], "a table subscripted with a span endpoint recorded earlier (by another pass, for any input) is subscripted through a clamp or after a range test against that table")
+def span_subscript(ctx, r):
+    n = 0
+    for file, f in _fns(ctx, r):
+        short = file.split("/")[-1]
+        for y in _walk_own(f["body"]):
+            if y["k"] != "Index":
+                continue
+            ends = [z for z in q.walk(y["i"]) if z["k"] == "Field" and z["f"] in ("lo", "hi")]
+            if not ends:
+                continue
+            n += 1
+            base = q.show(q.strip_refs(y["e"]))
+            clamped = all(_clamped(y["i"], z) for z in ends)
+            tested = False
+            conds = q.path_conds(f["body"], y) or []
+            for c, pol in q.cond_atoms(conds):
+                if pol and c["k"] == "Binary" and c["op"] in ("<", "<=") and any(q.show(z) in q.show(c["a"]) for z in ends) and base in q.show(c["b"]) and "len" in q.show(c["b"]):
+                    tested = True
+            r.ob(clamped or tested, f"{short}:{f['name']}:{base}[{'/'.join(sorted({z['f'] for z in ends}))}]:unclamped-span-endpoint", file, y["l"],
+                 f"{f['name']}: `{q.show(y)}` subscripts `{base}` with a span endpoint that was recorded while scanning; the scanner can leave its position past the end of the text (a source ending inside `/* ..` is stepped over as if the closing `*/` were there), so the endpoint can exceed the table and the subscript panics on that input. The endpoint must go through `.min(<last index>)` or a test against `{base}.len()`",
+                 sample=f"{f['name']}: {q.show(y)}")
+    r.count("subscripts by span endpoints", n, 2, "abra_core/src/parse/lexer.rs")
+
+
+def _clamped(idx, end):
+    """Is the span endpoint `end`, inside the subscript expression `idx`, the receiver of a `.min(..)` (or an argument of `min`)?"""
+    for x in q.walk(idx):
+        if x["k"] == "MethodCall" and x["m"] in ("min", "clamp") and any(z is end for z in q.walk(x["recv"])):
+            return True
+        if x["k"] == "Call" and q.last_seg(q.show(x["f"])) == "min" and any(z is end for a in x["args"] for z in q.walk(a)):
+            return True
+    return False
+
+
+@rule("LOOP-VERDICT", ["C03", "C04", "C12"], "a yes/no answer computed by a loop over several requirements depends on all of them: the flag is joined with its previous value (or the loop leaves at the first decisive element), never plainly overwritten per element")
+def loop_verdict(ctx, r):
+    n = 0
+    files = FRONT + ["abra_core/src/translate_bytecode.rs"]
+    for file in files:
+        items = ctx.file_items(file)
+        if items is None:
+            r.missing(file)
+            continue
+        short = file.split("/")[-1]
+        for f, _ in q.iter_items(items):
+            if f["k"] != "Fn" or f.get("body") is None:
+                continue
+            flags = {}
+            for x in _walk_own(f["body"]):
+                if x["k"] == "Local" and x.get("init") is not None and x["init"]["k"] == "Lit" and x["init"].get("t") == "bool" and x["pat"].get("k") == "PIdent" and x["pat"].get("mut"):
+                    flags[x["pat"]["name"]] = x
+            if not flags:
+                continue
+            for lp in _walk_own(f["body"]):
+                if lp["k"] not in ("For", "While"):
+                    continue
+                for a in _walk_own(lp["body"]):
+                    is_assign = a["k"] == "Assign" and a["a"]["k"] == "Path" and a["a"]["p"] in flags
+                    if not is_assign:
+                        continue
+                    v = a["a"]["p"]
+                    if flags[v]["l"] > lp["l"]:
+                        continue  # declared inside the loop: a per-element value
+                    n += 1
+                    rhs = a["b"]
+                    constant = rhs["k"] == "Lit"
+                    joined = v in q.idents_in(rhs)
+                    # the loop is left in the same block right after the assignment, possibly under a test of the flag
+                    leaves = False
+                    for blk in _walk_own(lp["body"]):
+                        if blk["k"] == "Block" and any(s is a or (s.get("e") is a) for s in blk["stmts"]):
+                            idx = next(i for i, s in enumerate(blk["stmts"]) if s is a or s.get("e") is a)
+                            for s in blk["stmts"][idx + 1:]:
+                                if any(y["k"] in ("Break", "Return") for y in _walk_own(s)):
+                                    leaves = True
+                    r.ob(constant or joined or leaves, f"{short}:{f['name']}:{v}:overwritten-per-element", file, a["l"],
+                         f"{f['name']}: `{v} = {q.show(rhs)[:80]}` inside `{'for ' + q.show_pat(lp['pat']) + ' in ' + q.show(lp['e'])[:50] if lp['k'] == 'For' else 'while ' + q.show(lp['c'])[:50]}` replaces the verdict on every element, so only the last element decides (with two interface bounds on a type parameter, a type that satisfies the last one only is accepted and the code generator then finds no implementation); join it (`{v} = {v} && ..`) or leave the loop at the first failure",
+                         sample=f"{f['name']}: flag `{v}` {'set to a constant' if constant else 'joined with its previous value' if joined else 'decides and leaves'} in a loop")
+    r.count("boolean flags assigned inside loops", n, 4, "abra_core/src")
+
+
+@rule("MAP-SUBSCRIPT", ["C04", "C34"], "a table of the checker's context that some code reads as possibly lacking the key (`.get`) is not subscripted elsewhere as if the key were always there")
+def map_subscript(ctx, r):
+    files = FRONT + [ERR]
+    st = q.find_struct(ctx.file_items("abra_core/src/statics.rs") or [], "StaticsContext")
+    if st is None:
+        r.missing("StaticsContext", "abra_core/src/statics.rs")
+        return
+    maps = [fl["name"] for fl in st["fields"] if fl["ty"].replace(" ", "").startswith("HashMap<")]
+    r.count("tables of the checker's context", len(maps), 10, "abra_core/src/statics.rs")
+    gets, subs = {}, {}
+    for file in files:
+        items = ctx.file_items(file)
+        if items is None:
+            r.missing(file)
+            continue
+        for f, _ in q.iter_items(items):
+            if f["k"] != "Fn" or f.get("body") is None:
+                continue
+            for x in q.walk(f["body"]):
+                if x["k"] == "Index" and q.strip_refs(x["e"])["k"] == "Field" and q.strip_refs(x["e"])["f"] in maps:
+                    subs.setdefault(q.strip_refs(x["e"])["f"], []).append((file, f, x))
+                if x["k"] == "MethodCall" and x["m"] in ("get", "get_mut") and q.strip_refs(x["recv"])["k"] == "Field" and q.strip_refs(x["recv"])["f"] in maps:
+                    gets.setdefault(q.strip_refs(x["recv"])["f"], []).append((file, f, x))
+    n = 0
+    for m in maps:
+        for file, f, x in subs.get(m, []):
+            n += 1
+            other = gets.get(m, [])
+            guarded = any(c["k"] == "MethodCall" and c["m"] == "contains_key" and q.strip_refs(c["recv"])["k"] == "Field" and q.strip_refs(c["recv"])["f"] == m for c in q.walk(f["body"]))
+            r.ob(not other or guarded, f"{file.split('/')[-1]}:{f['name']}:{m}[..]:subscript-of-a-partial-table", file, x["l"],
+                 f"{f['name']}: `{q.show(x)[:70]}` subscripts `{m}`, which {other[0][1]['name'] if other else '?'} reads with `.get(..)` because the key may be absent (e.g. an interface nobody implements has no entry): one of the two is wrong, and the subscript panics the checker on that input",
+                 sample=f"{f['name']}: {m}[..] (table never read as partial)")
+        if m in gets and m not in subs:
+            r.ob(True, "", "abra_core/src/statics.rs", 0, "", sample=f"{m}: read with .get only ({len(gets[m])} sites)")
+    r.count("tables read in the front end", len(set(gets) | set(subs)), 8, "abra_core/src/statics.rs")
